@@ -6,6 +6,7 @@ mod c19;
 mod c20;
 mod conc;
 mod docs;
+mod edits;
 mod evalreq;
 mod merge;
 mod rx;
@@ -46,6 +47,7 @@ fn main() {
         "c18" => c18::run(&out, seed, thorough, &side),
         "c19" => c19::run(&out, seed, thorough, &side),
         "c20" => c20::run(&out, seed, thorough, &side),
+        "edits" => edits::run(&out, seed, thorough, &side),
         "conc" => conc::run(&out, seed, thorough, &side),
         "concchild" => conc::child(),
         "docs" => docs::run(&out, seed, thorough, &side),
